@@ -469,7 +469,7 @@ var salary = ev.Register(&ev.P[rateCase]{
 	Check: func(c rateCase) error {
 		byDay := shipped()
 		y, m, d := ref.FromJDN(c.J)
-		s := calendar.NewSolarFromYmd(y, m, d)
+		s := calendar.NewSolar(y, m, d, (c.J*5)%24, (c.J*7)%60, (c.J*11)%60) // the pay rate is a fact of the day, whatever the clock
 		l := s.GetLunar()
 		qing := false
 		for i, x := range gen.Terms(y) {
